@@ -9,6 +9,9 @@ export GOCACHE=${GOCACHE:-/verif/cache/gocache}   # shared build cache (also for
 mkdir -p $VERIF_ROOT/bin $VERIF_ROOT/out /verif/cache
 BIN=$VERIF_ROOT/bin/vcheck-$$; trap 'rm -f $BIN $VERIF_ROOT/out/build.$$.log' EXIT
 ID=${1:?id}; TIER=${2:-${VERIF_TIER:-quick}}
+# C20 needs the instrumented overlay build: it has its own runner (same exit contract)
+if [ "$ID" = C20 ]; then exec $VERIF_ROOT/run_c20.sh "$TIER"; fi
+if [ "$ID" = replay ] && grep -q '"property": *"C20"\|"property":"C20"' "$TIER" 2>/dev/null; then exec $VERIF_ROOT/run_c20.sh replay "$TIER"; fi
 python3 $VERIF_ROOT/tools/genall.py
 if ! go build -o $BIN ./cmd/vcheck 2>$VERIF_ROOT/out/build.$$.log; then
   # a tree that does not compile is not a property violation; report as harness error
